@@ -78,7 +78,10 @@ def case_int(a, v: int, kind: str = "int"):
         return f"{kind}.write.bytes", {"value": str(v), "got": got.hex()[:80], "expected": exp.hex()[:80]}
     r = a.ASN1Reader(exp + SUFFIX)
     try:
-        val = r.read_integer() if kind == "int" else r.read_enumerated(int)
+        if (v & 7) == 5:  # a share of the values goes through the peek_header fast path
+            val = r.read_integer(header=r.peek_header()) if kind == "int" else r.read_enumerated(int, header=r.peek_header())
+        else:
+            val = r.read_integer() if kind == "int" else r.read_enumerated(int)
         rest = r.get_remaining_data()
     except Exception as e:  # noqa: BLE001
         return f"{kind}.read.exc.{type(e).__name__}", {"value": str(v), "der": exp.hex()[:80], "exc": repr(e)}
@@ -204,6 +207,16 @@ def case_tag(a, cls: int, constructed: bool, number: int, clen: int):
         return "tag.read.header", {"tag": [cls, constructed, number], "hdr": repr(hdr)}
     if back != content or rest != SUFFIX:
         return "tag.read.value", {"tag": [cls, constructed, number]}
+    # the same value through the peek_header fast path (header= argument), as the CMS decoder uses it
+    try:
+        r2 = a.ASN1Reader(exp + SUFFIX)
+        h2 = r2.peek_header()
+        back2 = r2.read_octet_string(header=h2)
+        rest2 = r2.get_remaining_data()
+    except Exception as e:  # noqa: BLE001
+        return f"tag.read-with-header.exc.{type(e).__name__}", {"tag": [cls, constructed, number], "exc": repr(e)}
+    if back2 != content or rest2 != SUFFIX:
+        return "tag.read-with-header.value", {"tag": [cls, constructed, number]}
     # a reader expecting another tag must refuse, and the same value under the generic reader w/ header works
     other = _tag(a, cls, constructed, number + 1 if number != 30 else 29)
     try:
